@@ -7,7 +7,7 @@ same anchor finder as weave.py (by name, never by line) and pasted unchanged int
 payload structs, one assume_specification).  The only mechanical edits are:
 
   * `///` doc-comment lines, `#[derive(..)]` and `#[default]` lines are dropped (Verus needs its
-    own derives; `#[derive(Clone, Copy)]` is put back on the fieldless operator enum);
+    own derives; `#[derive(Clone, Copy, PartialEq, Eq, Structural)]` is put back on the fieldless operator enum);
   * the return type `-> T` of a function under contract becomes `-> (r: T)` and the contract's
     `ensures` clause is spliced between signature and body;
   * get_precedence's body is additionally pasted as the body of a spec function
@@ -32,7 +32,7 @@ import rustscan  # noqa: E402
 B = 'src/nodes/expressions/binary.rs'
 ITEMS = [
     # types
-    dict(file=B, kind='enum', name='BinaryOperator', derive='#[derive(Clone, Copy)]'),
+    dict(file=B, kind='enum', name='BinaryOperator', derive='#[derive(Clone, Copy, PartialEq, Eq, Structural)]'),
     dict(file='src/nodes/expressions/mod.rs', kind='enum', name='Expression'),
     dict(file=B, kind='struct', name='BinaryExpression'),
     dict(file='src/process/evaluator/lua_value.rs', kind='enum', name='LuaValue'),
@@ -351,7 +351,7 @@ def run_for_property(prop, repo, out_dir, log):
         'Verus: assume_specification for char::is_ascii_alphanumeric (ASCII letter or digit)',
         'Verus: payload structs of Expression variants are opaque external_body structs (never inspected by the extracted functions)',
         'Verus: ends_with_if_expression and ends_with_type_cast_to_type_name_without_type_parameters are external_body signatures with an UNINTERPRETED spec (nothing assumed; they only add parentheses)',
-        'Verus extraction drops: doc comments, #[derive(..)] and #[default] lines; adds #[derive(Clone, Copy)] on BinaryOperator; names the return value; get_precedence body duplicated as spec_get_precedence',
+        'Verus extraction drops: doc comments, #[derive(..)] and #[default] lines; adds #[derive(Clone, Copy, PartialEq, Eq, Structural)] on BinaryOperator; names the return value; get_precedence body duplicated as spec_get_precedence',
     ]
     log('verus: %d function(s) verified, %d error(s), %.1fs%s' % (vr.get('verified', 0), vr.get('errors', 0), wall, (' (helpers: %d, left out: %d)' % (len(extra), len(dropped_specs))) if (extra or dropped_specs) else ''))
     assumptions = assumptions + ['Verus: ' + n for n in notes]
